@@ -244,6 +244,7 @@ func Features(text string) []string {
 
 type gen struct {
 	r       *rng.R
+	rtl     bool // right-to-left words allowed in this document
 	ids     int
 	classes int
 	names   []string // custom property names
@@ -293,7 +294,7 @@ func (g *gen) varRef(fallback string) string {
 	}
 }
 
-func words(r *rng.R, n int) string {
+func words(r *rng.R, n int, rtl bool) string {
 	var b strings.Builder
 	for i := 0; i < n; i++ {
 		if i > 0 {
@@ -310,9 +311,16 @@ func words(r *rng.R, n int) string {
 				b.WriteString(" ")
 			}
 		}
-		switch r.Intn(24) {
+		k := r.Intn(24)
+		if (k == 1 || k == 2) && !rtl {
+			k = 10
+		}
+		if k == 0 && !r.P(1, 3) {
+			k = 11
+		}
+		switch k {
 		case 0: // long word
-			b.WriteString(strings.Repeat(pick(r, []string{"a", "X", "ab", "é", "m­"}), r.Range(30, 200)))
+			b.WriteString(strings.Repeat(pick(r, []string{"a", "X", "ab", "é", "m­"}), r.Range(20, 70)))
 		case 1:
 			b.WriteString("שלום עולם")
 		case 2:
@@ -394,7 +402,7 @@ func (g *gen) svgMarkup(inline bool) string {
 		case 3:
 			fmt.Fprintf(&b, "<polygon points=\"%s\"/>", pick(r, []string{"0,0 10,0 5,10", "0 0 1", "", "a", "1,2,3,4,5,6", "0,0"}))
 		case 4:
-			fmt.Fprintf(&b, "<text x=\"%s\" y=\"5\" font-size=\"%s\" text-anchor=\"%s\">%s<tspan dx=\"%s\">t</tspan></text>", pick(r, []string{"0", "1 2 3", "", "a"}), pick(r, []string{"5", "0", "-1", "1e3"}), pick(r, []string{"start", "middle", "end", "x"}), escText(words(r, r.Range(0, 3))), pick(r, []string{"1", "1 2", ""}))
+			fmt.Fprintf(&b, "<text x=\"%s\" y=\"5\" font-size=\"%s\" text-anchor=\"%s\">%s<tspan dx=\"%s\">t</tspan></text>", pick(r, []string{"0", "1 2 3", "", "a"}), pick(r, []string{"5", "0", "-1", "1e3"}), pick(r, []string{"start", "middle", "end", "x"}), escText(words(r, r.Range(0, 3), false)), pick(r, []string{"1", "1 2", ""}))
 		case 5:
 			fmt.Fprintf(&b, "<g transform=\"%s\" opacity=\"%s\"><rect width=\"3\" height=\"3\"/></g>", pick(r, []string{"translate(1,2)", "scale(0)", "rotate(45 1 1)", "matrix(1 0 0 1 0 0)", "matrix(0 0 0 0 0 0)", "skewX(90)", "foo(1)", "translate(", "scale(1e30)", "rotate(1,2)", ""}), pick(r, []string{"1", "0", "0.5", "-1", "x"}))
 		case 6:
@@ -697,7 +705,7 @@ func (g *gen) decl0() Decl {
 	}
 }
 
-func (g *gen) text(max int) *Node { return &Node{Text: words(g.r, g.r.Range(1, max))} }
+func (g *gen) text(max int) *Node { return &Node{Text: words(g.r, g.r.Range(1, max), g.rtl)} }
 
 func (g *gen) attrs(n *Node) {
 	r := g.r
@@ -712,7 +720,7 @@ func (g *gen) attrs(n *Node) {
 		n.Attrs = append(n.Attrs, Attr{K: "dir", V: pick(r, []string{"rtl", "ltr", "auto"})})
 	}
 	if r.P(1, 20) {
-		n.Attrs = append(n.Attrs, Attr{K: "lang", V: pick(r, []string{"en", "fr", "de", "ar", "x", ""})})
+		n.Attrs = append(n.Attrs, Attr{K: "lang", V: pick(r, []string{"en", "fr", "de", "ar", "en-US", "fr", "en", "zh-Hans", "x", ""})})
 	}
 	if r.P(1, 30) {
 		n.Attrs = append(n.Attrs, Attr{K: "hidden", V: ""})
@@ -1029,11 +1037,12 @@ func (g *gen) rule() *Rule {
 // GenDoc builds one document from its own sub-generator.
 func GenDoc(r *rng.R, gotext bool) *Doc {
 	g := &gen{r: r}
+	g.rtl = r.P(1, 14)
 	d := &Doc{Doctype: r.P(1, 2), Hints: r.P(1, 2), Engine: "pango"}
-	if gotext && r.P(1, 4) {
+	if gotext && r.P(1, 10) {
 		d.Engine = "gotext"
 	}
-	d.PreComment = r.P(1, 150)
+	d.PreComment = r.P(1, 300)
 	nr := r.Range(0, 10)
 	for i := 0; i < nr; i++ {
 		d.Author = append(d.Author, g.rule())
